@@ -7,3 +7,4 @@ import XzVerif.Props.C03
 #print axioms Props.C03.C03_ring_match_appends_copy
 #print axioms Props.C03.C03_ring_literal
 #print axioms Props.C03.C03_ring_read
+#print axioms Props.C03.C03_lazy_reader_reads_every_legal_chunk_sequence
